@@ -244,6 +244,50 @@ def gen_load_scenario(rng, ids, alive, density, ops):
             ops.append(['probe', x, ''])
 
 
+def gen_able_scenario(rng, ids, alive, density, ops):
+    """a port is enabled / disabled (slow driver) while assignments that concern it are served"""
+    live = sorted(alive)
+    if len(live) < 2:
+        return
+    p, q = rng.sample(live, 2)
+    if rng.random() < 0.6:
+        # p is disabled holding an expression that reads q; while p is being enabled its expression is removed (or replaced)
+        # and q is made to read p
+        ops.append(['set', p, text_of(_wrap_ref(rng, q, ids, density))])
+        ops.append(['disable', p, '0'])
+        subs = [['enable', p, str(rng.choice([5, 10, 20, 40]))],
+                ['set', p, '' if rng.random() < 0.7 else text_of(gen_tree(rng, [x for x in ids if x != q], 1, density))],
+                ['set', q, text_of(_wrap_ref(rng, p, ids, density))]]
+        ops.append(['par', '', subs])
+    else:
+        kind = rng.choice(['enable', 'disable'])
+        ops.append([('disable' if kind == 'enable' else 'enable'), p, '0'])
+        subs = [[kind, p, str(rng.choice([0, 1, 3, 10, 30]))]]
+        for _ in range(rng.choice([1, 2])):
+            t = rng.choice([p, q])
+            subs.append(['set', t, text_of(gen_tree(rng, ids, rng.choice([0, 1, 1]), density))])
+        ops.append(['par', '', subs])
+    ops.append(['probe', p, ''])
+    ops.append(['probe', q, ''])
+
+
+def gen_restore_scenario(rng, ids, alive, density, ops):
+    """PUT /ports: every port is reset, then the attributes of the backup are assigned port by port -- here a backup whose
+    dependency direction is the reverse of the running configuration"""
+    live = sorted(alive)
+    if len(live) < 2:
+        return
+    k = min(len(live), rng.choice([2, 2, 3]))
+    qs = rng.sample(live, k)
+    for i in range(k - 1):
+        ops.append(['set', qs[i], text_of(_wrap_ref(rng, qs[i + 1], ids, density))])     # running: q0 -> q1 -> ...
+    for q in qs:
+        ops.append(['reset', q, ''])
+    for i in range(k - 1, 0, -1):
+        ops.append(['set', qs[i], text_of(_wrap_ref(rng, qs[i - 1], ids, density))])     # backup: ... -> q1 -> q0
+    ops.append(['probe', qs[0], ''])
+
+
 def gen_history(rng, par_rate=0.06, max_len=40, load_rate=0.03):
     n = rng.randint(2, 8)
     ids = ['p%d' % i for i in range(1, n + 1)]
@@ -258,6 +302,12 @@ def gen_history(rng, par_rate=0.06, max_len=40, load_rate=0.03):
             gen_par(rng, ids, alive, density, ops)
         elif rng.random() < load_rate:
             gen_load_scenario(rng, ids, alive, density, ops)
+        elif rng.random() < load_rate:
+            gen_able_scenario(rng, ids, alive, density, ops)
+        elif rng.random() < load_rate * 0.7:
+            gen_restore_scenario(rng, ids, alive, density, ops)
+        elif rng.random() < 0.03:
+            ops.append([rng.choice(['enable', 'disable', 'reset']), rng.choice(sorted(alive)), '0'])
         elif rng.random() < 0.03 and len(alive) > 1:
             p = rng.choice(sorted(alive))
             alive.discard(p)
@@ -329,9 +379,24 @@ def impl():
         from qtoggleserver.core import expressions
         from qtoggleserver.core.expressions import exceptions as ex
 
+        class LatencyPort(core_vports.VirtualPort):
+            """a virtual port whose driver takes a scripted number of event-loop iterations to enable / disable"""
+            c04_latency = 0
+
+            async def handle_enable(self):
+                n, self.c04_latency = self.c04_latency, 0
+                for _ in range(n):
+                    await asyncio.sleep(0)
+
+            async def handle_disable(self):
+                n, self.c04_latency = self.c04_latency, 0
+                for _ in range(n):
+                    await asyncio.sleep(0)
+
         class Impl:
             pass
         _impl = Impl()
+        _impl.LatencyPort = LatencyPort
         _impl.persist, _impl.core_ports, _impl.core_vports, _impl.expressions, _impl.ex = (
             persist, core_ports, core_vports, expressions, ex)
     return _impl
@@ -374,10 +439,7 @@ def _distinct_cycle(g):
 async def _add_port(I, pid, enabled):
     # core/api/funcs/ports.py:post_ports
     await I.core_vports.add(pid, 'number', None, None, None, None, None)
-    port = await I.core_ports.load_one(
-        'qtoggleserver.core.vports.VirtualPort',
-        {'id_': pid, 'type_': 'number', 'min_': None, 'max_': None, 'integer': None, 'step': None, 'choices': None},
-    )
+    port = await I.core_ports.load_one(I.LatencyPort, dict(VPORT_ARGS, id_=pid))
     if enabled:
         await port.enable()
     await asyncio.sleep(0)   # let the port's write/eval tasks start (cancelling a never-started task makes remove() raise)
@@ -443,6 +505,14 @@ async def _const(x):
     return x
 
 
+async def _do_able(port, kind):
+    try:
+        await (port.enable() if kind == 'enable' else port.disable())
+        return 'accepted'
+    except Exception as e:
+        return 'other:%s' % type(e).__name__
+
+
 def _text(I, pid):
     port = I.core_ports.get(pid)
     e = port.get_expression() if port is not None else None
@@ -473,6 +543,8 @@ def _serve(st, kind, pid, cand):
     """the specification of one request on state st (modified in place) -> outcome"""
     if pid not in st:
         return 'noport'
+    if kind in ('enable', 'disable'):
+        return 'accepted'
     if kind == 'remove':
         del st[pid]
         return 'accepted'
@@ -520,12 +592,22 @@ async def run_history(I, h):
                 port = I.core_ports.get(pid)
                 obs.append((await _start_sequence(I, port) if port is not None else 'seq-refused', ''))
                 continue
-            if kind in ('save', 'unplug', 'probe'):
+            if kind in ('save', 'unplug', 'probe', 'reset', 'enable', 'disable'):
                 port = I.core_ports.get(pid)
                 if port is None:
                     obs.append(('noport', ''))
                     continue
-                if kind == 'save':
+                held = _text(I, pid)
+                if kind == 'reset':
+                    await port.reset()             # PUT /ports (restore) does this to every port before re-assigning attributes
+                    if _text(I, pid) != '':
+                        verdict = verdict or (k, 'reset-kept-expression', 'port.reset() left the expression %r in place' % _text(I, pid))
+                elif kind in ('enable', 'disable'):
+                    port.c04_latency = int(text or 0)
+                    await (port.enable() if kind == 'enable' else port.disable())
+                    if _text(I, pid) != held:
+                        verdict = verdict or (k, 'expression-changed', '%s() changed the expression from %r to %r' % (kind, held, _text(I, pid)))
+                elif kind == 'save':
                     await port.save()
                     persisted[pid] = _text(I, pid)
                 elif kind == 'unplug':
@@ -541,7 +623,7 @@ async def run_history(I, h):
                 for x in idsnow:                      # what the specification says the load must give
                     if persisted.get(x):
                         _serve(st, 'set', x, _candidate(I, x, persisted[x]))
-                touched.extend(await I.core_ports.load([dict(VPORT_ARGS, driver=I.core_vports.VirtualPort, id_=x) for x in idsnow]))
+                touched.extend(await I.core_ports.load([dict(VPORT_ARGS, driver=I.LatencyPort, id_=x) for x in idsnow]))
                 await asyncio.sleep(0)
                 got = {x: _text(I, x) for x in idsnow}
                 if got != {x: st[x][0] for x in idsnow}:
@@ -567,6 +649,9 @@ async def run_history(I, h):
                     elif skind == 'set':
                         n_seq += 1 if port._sequence else 0
                         coros.append(_do_set(I, port, stext))
+                    elif skind in ('enable', 'disable'):
+                        port.c04_latency = int(stext or 0)
+                        coros.append(_do_able(port, skind))
                     else:
                         coros.append(_do_remove(I, port))
                 outcomes = list(await asyncio.gather(*coros))
@@ -693,12 +778,21 @@ def _coq_obs(kind, pid, text, outcome, after):
     return '(%s, %s, %s)' % (coq_op(kind, pid, text), OUTCOME[outcome], a)
 
 
-XOPS = {'save': 'XSave', 'unplug': 'XUnplug', 'add': 'XPlug', 'restart': 'XRestart', 'probe': 'XProbe'}
+XOPS = {'save': 'XSave', 'unplug': 'XUnplug', 'add': 'XPlug', 'restart': 'XRestart', 'probe': 'XProbe', 'reset': 'XReset',
+        'enable': 'XProbe', 'disable': 'XProbe'}
 
 
 def emitted(h):
-    """indices of the operations that are steps of the Coq history (starting a value sequence is not one)"""
-    return [i for i, o in enumerate(h['ops']) if o[0] != 'seq']
+    """for every step of the Coq history, the index of the operation it comes from (starting a value sequence is no step; a
+    concurrent step is followed by one probe step per port it enabled / disabled)"""
+    rows = []
+    for i, o in enumerate(h['ops']):
+        if o[0] == 'seq':
+            continue
+        rows.append(i)
+        if o[0] == 'par':
+            rows.extend(i for x in o[2] if x[0] in ('enable', 'disable'))
+    return rows
 
 
 def flat_outcomes(obs):
@@ -719,7 +813,13 @@ def coq_hist(h, obs):
             x = 'XRestart' if kind == 'restart' else '(%s %s)' % (XOPS[kind], cstr(pid))
             rows.append('HX %s %s (AText %s)' % (x, OUTCOME[o[0]], coq.string(o[1])))
         elif kind == 'par':
-            rows.append('HPar [%s]' % '; '.join(_coq_obs(sk, sp, st, out, after) for (sk, sp, st), (out, after) in zip(text, o[1])))
+            pairs = list(zip(text, o[1]))
+            rows.append('HPar [%s]' % '; '.join(_coq_obs(sk, sp, st, out, after) for (sk, sp, st), (out, after) in pairs
+                                                if sk not in ('enable', 'disable')))
+            # enabling / disabling is no operation of the model: the port must hold what the model says it holds
+            for (sk, sp, st), (out, after) in pairs:
+                if sk in ('enable', 'disable'):
+                    rows.append('HX (XProbe %s) %s (AText %s)' % (cstr(sp), OUTCOME[out], coq.string(after)))
         else:
             rows.append('HOne %s' % _coq_obs(kind, pid, text, o[0], o[1]))
     return '(%s, [%s])' % (coq.lst(h['ports'], cstr), ';\n   '.join(rows))
@@ -869,6 +969,8 @@ def run_histories(ctx, res, hs, tag, every=False, shard_size=250, count_distinct
                 bump('par:%d-of-them-on-a-port-with-a-running-sequence' % o[2])
                 if any(x[0] == 'remove' for x in text):
                     bump('par:with-removal')
+                if any(x[0] in ('enable', 'disable') for x in text):
+                    bump('par:with-enable-or-disable-in-flight')
                 for out, _ in o[1]:
                     bump('par-outcome:%s' % out.split(':')[0])
                 continue
@@ -936,6 +1038,8 @@ def check(ctx, res):
         'port removal), on ports with a running sequence (all / some / none); the load path: port.save(), removal keeping the '
         'persisted data, re-creation + load(), restart (all ports removed with data kept, core_ports.load of all), probes, and '
         'scenario blocks (hot-unplug with the graph changed meanwhile; crash between an unsaved clear and a saved assignment); '
+        'port.reset() (+ restore of a configuration with the reverse dependency direction), enable()/disable() with a scripted '
+        'driver latency, sequential and in flight during concurrent assignments; '
         'every step through the real set_attr/remove/load_one/load/save/set_sequence. '
         'distinct = distinct histories; non-trivial = contains a circular-dependency rejection and an accepted assignment of a '
         'function call reading another port')
